@@ -56,11 +56,19 @@ def op1(ctx):
         ev, res = ctx.eval(b, no_inline=(r"\{closure",))
         # the mapping function is the closure / fn parameter, whatever its position in the signature
         maps = [e for e in res.log if e["kind"] == "call" and not e["chain"] and re.search(r"FnOnce.*::call_once$", e["callee"]) and e["args"] and tag(e["args"][0]) == "param"]
+        # (the tail behind an inlined helper's exits may have been copied per exit by the loader: one source call, several sites)
+        if len(maps) > 1 and len(set(ctx.loc(e) for e in maps)) == 1:
+            dup = maps[1:]
+            maps = maps[:1]
+        else:
+            dup = []
         if len(maps) != 1:
             yield Ob(key_of("C09-Op1", b.path, "map-call"), False, "expected exactly one call of the mapping function f, found %d" % len(maps), b.loc())
             continue
         e = maps[0]
         fs = ctx.facts_of(ev, e)
+        for d_ in dup:
+            fs = set(fs) & set(ctx.facts_of(ev, d_))      # what holds at every copy
         A, S = ("align_of", "H"), ("size_of", "H")
         ok = False
         for f in fs:
